@@ -43,7 +43,7 @@ CLAIMED = {
          SIM + "complete enumeration of the discoverability product, store-seam observation", "DESIGN.md §6 C11"),
  "C15": ("fault_enumeration",
          "Link world: valid in-flight messages produced by the real encoders are damaged by a systematic single-fault sweep (truncation at every offset, every bit of the first 256 bytes, declared-length rewrites at every CBOR header, huge JSON numbers, nesting to 100000, U2F header fields over their range, HID packets of every length 0-130 with rewritten BCNT/seq, drop/dup/swap) and by seeded multi-fault combinations, and fed to every public decoder inside crash-isolated workers with a counting allocator and a watchdog. Borderline for this technique family and said so in DESIGN.md: apart from the stateful HID receiver the decoders are pure functions, so this is fault injection on a simulated link rather than scheduling.",
-         "Bounds: single allocation <= 256 x len + 2 MiB, peak heap <= 512 x len + 4 MiB, <= 10 s of CPU time per case (measured by a watchdog thread; CPU time, so machine load cannot turn into a verdict). The watchdog is the only measured (not computed) quantity in the simulator.",
+         "Bounds: single allocation <= 256 x len + 2 MiB, peak heap <= 512 x len + 16 MiB, <= 10 s of CPU time per case (measured by a watchdog thread; CPU time, so machine load cannot turn into a verdict). The watchdog is the only measured (not computed) quantity in the simulator.",
          SIM + "simulated link with systematic wire-fault sweep into every decoder, crash-isolated workers with counting allocator and watchdog", "DESIGN.md §6 C15"),
  "C16": ("exploration",
          "HID world: 2-4 channels write through the real Message::new/Message::send into recording endpoints, a seeded merger decides whose packet the one real ChannelHandler receives next (each channel's order kept); an independent packet decoder checks the wire format and the receiver must return each message exactly once, on its last packet, unaltered. Short streams are expanded into all interleavings in the thorough tier.",
